@@ -64,6 +64,8 @@ struct Plan {
     unreg_fail: Option<usize>,
     bs: Bs,
     regtok: Option<(u32, u16)>,
+    /// roll a partial registration back when a later sub-registration fails (`rb=0`: leave it)
+    rollback: bool,
 }
 
 impl Default for Plan {
@@ -74,6 +76,7 @@ impl Default for Plan {
             unreg_fail: None,
             bs: Bs::None,
             regtok: None,
+            rollback: true,
         }
     }
 }
@@ -180,8 +183,10 @@ impl<const LIFE: bool> EventSource for Custom<LIFE> {
                 .borrow_mut()
                 .push(format!("reg {} register sub={} {}", self.k, j, if r.is_ok() { "ok" } else { "err" }));
             if let Err(e) = r {
-                // a well-behaved composite source rolls its partial registration back
-                for i in (0..j).rev() {
+                // a well-behaved composite source rolls its partial registration back; many real ones
+                // just propagate the error with `?` (`rb=0`)
+                let rollback = self.plan.borrow().rollback;
+                for i in (0..if rollback { j } else { 0 }).rev() {
                     let u = self.subs[i].unregister(poll);
                     self.log.borrow_mut().push(format!(
                         "reg {} unregister sub={} {}",
@@ -680,7 +685,7 @@ fn exec_op(w: &Rc<World>, op: &str, _in_cb: bool) {
             }
         }
         "plan" => {
-            // plan K reg=J|- rereg=J|- unreg=J|- bs=none|err|synthJ
+            // plan K reg=J|- rereg=J|- unreg=J|- bs=none|err|synthJ [rb=0]
             let k = num(1);
             if let Some(p) = w.plans.borrow().get(&k) {
                 let mut p = p.borrow_mut();
@@ -691,6 +696,7 @@ fn exec_op(w: &Rc<World>, op: &str, _in_cb: bool) {
                         "reg" => p.reg_fail = v,
                         "rereg" => p.rereg_fail = v,
                         "unreg" => p.unreg_fail = v,
+                        "rb" => p.rollback = val != "0",
                         "bs" => {
                             p.bs = if val == "err" {
                                 Bs::Err
